@@ -9,12 +9,8 @@ mkdir -p build
 if [ -z "$COX_BUILD_LOCKED" ]; then
   COX_BUILD_LOCKED=1 exec flock "$ROOT/build/.lock" "$0" "$@"
 fi
-# 1. forbidden-construct gate (comments are allowed to mention the words)
-if grep -rnE '^\s*(Admitted|Axiom|Parameter|Conjecture|Hypothesis|Variable)\b|\badmit\b|Unset Guard|bypass_check|type-in-type|impredicative-set|Admit Obligations' \
-     coq/theories --include='*.v' | grep -v '^coq/theories/[A-Za-z/]*\.v:[0-9]*:\s*(\*' ; then
-  echo "BUILD-GATE: forbidden construct found" >&2
-  exit 2
-fi
+# 1. forbidden-construct gate (Variable/Hypothesis are allowed inside Sections only)
+python3 tools/gate.py || { echo "BUILD-GATE: forbidden construct found" >&2; exit 2; }
 # 1b. regenerate the translated layer from /repo's CURRENT source (fail closed: on a translation
 #     error the generated file is removed, so that exactly the theorems that depend on it stop building)
 for tr in scalars effects; do
